@@ -1,8 +1,163 @@
 //! Verification hook (compiled only with `--cfg quinn_rs_quinn_verif`).
+//!
+//! Component `endpoint_gate`: a REAL `Endpoint` (fixed reset key, fixed rng seed, 8-byte random
+//! connection IDs so that every CID validates) fed with datagrams for unknown connections through
+//! the public `Endpoint::handle`.
+//!
+//! Ops:
+//!   [0, has_server, min_reset_interval_us, seed]   create the endpoint (must be op 0)  -> [0]
+//!        has_server = 1 installs a `ServerConfig` whose crypto layer only records whether
+//!        `initial_keys` was consulted (and rejects the version), so that the short-Initial gate is
+//!        observable without certificates.
+//!   [1, t, len, fill]   short-header-looking datagram of `len` bytes at time t (first byte
+//!                       0x40 | (fill & 0x3f), the rest `fill`)
+//!   [2, t, len, fill]   supported-version (1) long-header Initial of exactly `len` bytes
+//!                       (8-byte DCID, empty SCID, empty token, Length covering the rest; len >= 20)
+//!   -> [kind, size, crypto_consulted, open_connections, incoming_buffer_bytes, first_byte_is_short]
+//!        kind: 0 = None, 1 = Response(transmit) with transmit.size = size = buf.len(),
+//!              2 = NewConnection, 3 = ConnectionEvent
+//! Times are microseconds after a per-case base instant.
 #![allow(missing_docs, dead_code, unused_imports, unreachable_pub, clippy::all)]
 use super::{Ops, Outs};
+use crate::crypto::{self, CryptoError, HandshakeTokenKey, HmacKey, Keys, UnsupportedVersion};
+use crate::transport_parameters::TransportParameters;
+use crate::{
+    ConnectionId, ConnectionIdGenerator, DatagramEvent, Duration, Endpoint, EndpointConfig,
+    Instant, RandomConnectionIdGenerator, ServerConfig,
+};
+use bytes::BytesMut;
+use std::sync::Arc;
+use std::sync::atomic::{AtomicBool, Ordering};
 
-/// Interpret `ops` for component `comp`; `None` if `comp` is not served by this module.
-pub(crate) fn run(_comp: &str, _ops: &Ops) -> Option<Outs> {
-    None
+struct FixedHmac;
+impl HmacKey for FixedHmac {
+    fn sign(&self, data: &[u8], out: &mut [u8]) {
+        for (i, b) in out.iter_mut().enumerate() {
+            *b = data.get(i % data.len().max(1)).copied().unwrap_or(0) ^ (i as u8).wrapping_mul(37);
+        }
+    }
+    fn signature_len(&self) -> usize {
+        32
+    }
+    fn verify(&self, data: &[u8], signature: &[u8]) -> Result<(), CryptoError> {
+        let mut s = vec![0; 32];
+        self.sign(data, &mut s);
+        if s == signature { Ok(()) } else { Err(CryptoError) }
+    }
+}
+
+struct NoTokenKey;
+impl HandshakeTokenKey for NoTokenKey {
+    fn aead_from_hkdf(&self, _random_bytes: &[u8]) -> Box<dyn crypto::AeadKey> {
+        unreachable!("no token is ever processed by this hook")
+    }
+}
+
+struct RecordingCrypto(Arc<AtomicBool>);
+impl crypto::ServerConfig for RecordingCrypto {
+    fn initial_keys(&self, _version: u32, _dst_cid: ConnectionId) -> Result<Keys, UnsupportedVersion> {
+        self.0.store(true, Ordering::SeqCst);
+        Err(UnsupportedVersion)
+    }
+    fn retry_tag(&self, _version: u32, _orig_dst_cid: ConnectionId, _packet: &[u8]) -> [u8; 16] {
+        [0; 16]
+    }
+    fn start_session(
+        self: Arc<Self>,
+        _version: u32,
+        _params: &TransportParameters,
+    ) -> Box<dyn crypto::Session> {
+        unreachable!("initial_keys rejects every version")
+    }
+}
+
+fn endpoint_gate(ops: &Ops) -> Outs {
+    let base = Instant::now();
+    let remote = "192.0.2.7:4433".parse().unwrap();
+    let consulted = Arc::new(AtomicBool::new(false));
+    let mut ep: Option<Endpoint> = None;
+    let mut outs = Vec::new();
+    for op in ops {
+        if op[0] == 0 {
+            let mut cfg = EndpointConfig::new(Arc::new(FixedHmac));
+            cfg.min_reset_interval(Duration::from_micros(op[2] as u64));
+            let mut seed = [0u8; 32];
+            seed[..8].copy_from_slice(&(op[3] as u64).to_le_bytes());
+            cfg.rng_seed(Some(seed));
+            cfg.cid_generator(Arc::new(|| -> Box<dyn ConnectionIdGenerator> {
+                Box::new(RandomConnectionIdGenerator::new(8))
+            }));
+            let server = if op[1] != 0 {
+                Some(Arc::new(ServerConfig::new(
+                    Arc::new(RecordingCrypto(consulted.clone())),
+                    Arc::new(NoTokenKey),
+                )))
+            } else {
+                None
+            };
+            ep = Some(Endpoint::new(Arc::new(cfg), server, true));
+            outs.push(vec![0]);
+            continue;
+        }
+        let Some(e) = ep.as_mut() else {
+            outs.push(vec![-1]);
+            continue;
+        };
+        let now = base + Duration::from_micros(op[1] as u64);
+        let len = op[2] as usize;
+        let fill = op[3] as u8;
+        let mut data = vec![fill; len];
+        match op[0] {
+            1 => {
+                if len > 0 {
+                    data[0] = 0x40 | (fill & 0x3f);
+                }
+            }
+            2 => {
+                if len < 20 {
+                    outs.push(vec![-1]);
+                    continue;
+                }
+                let rest = len - 18;
+                let hdr = [
+                    0xC0u8, 0, 0, 0, 1, 8, fill, fill, fill, fill, fill, fill, fill, fill, 0, 0,
+                    0x40 | ((rest >> 8) as u8),
+                    (rest & 0xff) as u8,
+                ];
+                data[..18].copy_from_slice(&hdr);
+            }
+            _ => {
+                outs.push(vec![-1]);
+                continue;
+            }
+        }
+        consulted.store(false, Ordering::SeqCst);
+        let mut buf = Vec::new();
+        let ev = e.handle(now, remote, None, None, BytesMut::from(&data[..]), &mut buf);
+        let (kind, size) = match ev {
+            None => (0, 0),
+            Some(DatagramEvent::Response(t)) => {
+                assert_eq!(t.size, buf.len());
+                (1, t.size as i128)
+            }
+            Some(DatagramEvent::NewConnection(_)) => (2, 0),
+            Some(DatagramEvent::ConnectionEvent(..)) => (3, 0),
+        };
+        outs.push(vec![
+            kind,
+            size,
+            consulted.load(Ordering::SeqCst) as i128,
+            e.open_connections() as i128,
+            e.incoming_buffer_bytes() as i128,
+            (kind == 1 && buf[0] & 0x80 == 0) as i128,
+        ]);
+    }
+    outs
+}
+
+pub(crate) fn run(comp: &str, ops: &Ops) -> Option<Outs> {
+    match comp {
+        "endpoint_gate" => Some(endpoint_gate(ops)),
+        _ => None,
+    }
 }
